@@ -224,6 +224,17 @@ def _norm_block(stmts: List[ast.stmt]) -> List[ast.stmt]:
                 v = getattr(s, f, None)
                 if isinstance(v, ast.IfExp):
                     v.test = nnf(v.test)
+            if isinstance(s, ast.Assign) and len(s.targets) == 1 and isinstance(s.targets[0], ast.Tuple) and isinstance(s.value, ast.Tuple) \
+                    and len(s.targets[0].elts) == len(s.value.elts) and all(isinstance(t, ast.Name) for t in s.targets[0].elts):
+                tn = {t.id for t in s.targets[0].elts}
+                if len(tn) == len(s.targets[0].elts) and not any(isinstance(x, ast.Name) and x.id in tn for v_ in s.value.elts for x in ast.walk(v_)) \
+                        and not any(isinstance(x, ast.Call) for v_ in s.value.elts for x in ast.walk(v_)):
+                    # a, b = e1, e2 with call-free values that do not read a or b: the same as a = e1; b = e2
+                    for t, v_ in zip(s.targets[0].elts, s.value.elts):
+                        new = ast.Assign(targets=[ast.Name(id=t.id, ctx=ast.Store())], value=v_)
+                        out.append(ast.fix_missing_locations(ast.copy_location(new, s)))
+                    i += 1
+                    continue
             if isinstance(s, ast.Assign):
                 s.value = _unbool(s.value)
                 if _is_boolish(s.value):
@@ -338,6 +349,24 @@ class _TupleConcat(ast.NodeTransformer):
         return n
 
 
+class _IdentityComp(ast.NodeTransformer):
+    """{k: v for k, v in X} -> dict(X) ;  [a for a in X] -> list(X)   (comprehensions that only copy)"""
+
+    def visit_DictComp(self, n):
+        self.generic_visit(n)
+        if len(n.generators) == 1 and not n.generators[0].ifs and isinstance(n.generators[0].target, ast.Tuple) and len(n.generators[0].target.elts) == 2:
+            a, b = n.generators[0].target.elts
+            if isinstance(a, ast.Name) and isinstance(b, ast.Name) and path_of(n.key) == a.id and path_of(n.value) == b.id:
+                return ast.copy_location(ast.Call(func=ast.Name(id="dict", ctx=ast.Load()), args=[n.generators[0].iter], keywords=[]), n)
+        return n
+
+    def visit_ListComp(self, n):
+        self.generic_visit(n)
+        if len(n.generators) == 1 and not n.generators[0].ifs and isinstance(n.generators[0].target, ast.Name) and path_of(n.elt) == n.generators[0].target.id:
+            return ast.copy_location(ast.Call(func=ast.Name(id="list", ctx=ast.Load()), args=[n.generators[0].iter], keywords=[]), n)
+        return n
+
+
 class _KwargKeys(ast.NodeTransformer):
     """for the ** parameter K of a function (always a dict): set(list(K.keys())), set(K.keys()), set(list(K)) -> set(K); `x in K.keys()` -> `x in K`"""
 
@@ -380,6 +409,7 @@ def alpha(f):
     if kw:
         f = _KwargKeys(kw).visit(f)
     f = _TupleConcat().visit(f)
+    f = _IdentityComp().visit(f)
     return _SymOrder().visit(f)
 
 
